@@ -21,7 +21,7 @@ func init() {
 			{"HND-BRANCH", 7, ruleHndBranch},
 			{"LAY-SHAPE", 8, ruleLayShape},
 			{"LAY-TARGET", 12, ruleLayTarget},
-			{"LAY-REWRITE", 43, ruleLayRewrite},
+			{"LAY-REWRITE", 27, ruleLayRewrite},
 			{"PAR-FORCLAUSE", 3, ruleParForClause},
 			{"HND-RANGEINT", 1, ruleHndRangeInt},
 			{"PAR-RETURNLINE", 1, ruleParReturnLine},
